@@ -539,4 +539,183 @@ Section Proofs.
           -- rewrite IH. cbn [wreq_list sent_of fst]. unfold wr_request, taken.
              rewrite Nat.add_0_r, total_sent_cons. reflexivity.
   Qed.
+
+  Lemma total_sent_firstn_S l i : i < length l ->
+    total_sent (firstn (S i) l) = total_sent (firstn i l) + sent_of (fst (nth i l sdflt)).
+  Proof.
+    intros H. rewrite (firstn_S_nth sdflt) by exact H. rewrite total_sent_app. f_equal.
+    unfold total_sent; cbn. lia.
+  Qed.
+
+  (* C06-M2 *)
+  Theorem write_exactly_once_lemma : forall buf min l,
+    0 < length buf -> min <= length buf ->
+    wkernel_ok (length buf) min 0 l ->
+    let C0 := mkWr buf (length buf) min 0 in
+    match wfirst_terminal min 0 l with
+    | None =>
+      (* no terminal answer: one send per answer, no callback; the socket got a prefix of buf *)
+      write_run retry C0 l = Ok (wreq_list (length buf) 0 l, firstn (total_sent l) buf, None)
+    | Some k =>
+      exists C',
+        let n := total_sent (firstn (S k) l) in
+        let v := wcb_value min (total_sent (firstn k l)) (nth k l sdflt) in
+        (* exactly k+1 send calls; the bytes handed to the socket, in order, are firstn n buf *)
+        write_run retry C0 l = Ok (wreq_list (length buf) 0 (firstn (S k) l), firstn n buf, Some (v, C')) /\
+        n <= length buf /\
+        match fst (nth k l sdflt) with
+        | SSent _ => (v = Z.of_nat n /\ min <= n) \/
+                     (v = (-1)%Z /\ snd (nth k l sdflt) = false /\ n < min)
+        | SErrno e => v = (-1)%Z /\ (is_retry retry e = false \/ snd (nth k l sdflt) = false)
+        end
+    end.
+  Proof.
+    intros buf min l HB HM HK C0.
+    pose proof (write_run_gen l C0) as G. unfold C0 in G. cbn [wr_buflen wr_minlen wr_bufpos wr_buf] in G.
+    specialize (G ltac:(unfold wr_inv; cbn; lia) HK). cbn zeta in G.
+    unfold slice in G. cbn [skipn] in G.
+    destruct (wfirst_terminal min 0 l) as [k|] eqn:F; [|exact G].
+    destruct G as (C' & E & Hb & _). exists C'. cbn zeta.
+    cbn [Nat.add] in *. split; [exact E|]. split; [exact Hb|].
+    destruct (wfirst_terminal_some _ _ _ _ F) as (Hk & T & _). cbn [Nat.add] in T.
+    pose proof (total_sent_firstn_S l k Hk) as Es.
+    unfold wterminal in T. unfold wcb_value.
+    destruct (fst (nth k l sdflt)) as [n|e] eqn:A.
+    - rewrite Es. cbn [sent_of].
+      destruct (min <=? total_sent (firstn k l) + n) eqn:Le.
+      + left. apply Nat.leb_le in Le. split; [reflexivity|lia].
+      + right. apply Nat.leb_gt in Le. cbn [orb] in T. apply negb_true_iff in T. repeat split; auto.
+    - split; [reflexivity|]. apply orb_true_iff in T. destruct T as [T|T]; apply negb_true_iff in T; auto.
+  Qed.
+
+  Lemma wnonterminal_pos min l : forall i, i <= length l ->
+    (forall j, j < i -> wterminal min (total_sent (firstn j l)) (nth j l sdflt) = false) ->
+    total_sent (firstn i l) = 0 \/ total_sent (firstn i l) < min.
+  Proof.
+    induction i as [|i IH]; intros Hi H.
+    - left. reflexivity.
+    - assert (Hi' : i < length l) by lia.
+      pose proof (H i ltac:(lia)) as T.
+      specialize (IH ltac:(lia) ltac:(intros j Hj; apply H; lia)).
+      rewrite total_sent_firstn_S by exact Hi'.
+      unfold wterminal in T.
+      destruct (fst (nth i l sdflt)) as [n|e]; cbn [sent_of] in *.
+      + apply orb_false_iff in T. destruct T as (T & _). apply Nat.leb_gt in T. lia.
+      + lia.
+  Qed.
+
+  Theorem write_requests_exact : forall buf min l,
+    0 < length buf -> min <= length buf ->
+    wkernel_ok (length buf) min 0 l ->
+    forall reqs wire fin, write_run retry (mkWr buf (length buf) min 0) l = Ok (reqs, wire, fin) ->
+    forall i, i < length reqs ->
+      let pos := total_sent (firstn i l) in
+      nth i reqs (0, 0) = (pos, length buf - pos) /\ pos < length buf.
+  Proof.
+    intros buf min l HB HM HK reqs wire fin E i Hi pos.
+    pose proof (write_exactly_once_lemma buf min l HB HM HK) as G. cbn zeta in G.
+    destruct (wfirst_terminal min 0 l) as [k|] eqn:F.
+    - destruct G as (C' & E' & _). rewrite E' in E.
+      assert (Er : reqs = wreq_list (length buf) 0 (firstn (S k) l)) by congruence. subst reqs. clear E.
+      destruct (wfirst_terminal_some _ _ _ _ F) as (Hk & _ & NT). cbn [Nat.add] in NT.
+      rewrite wreq_list_length, firstn_length in Hi.
+      rewrite wreq_list_nth by (rewrite firstn_length; lia). cbn [Nat.add].
+      rewrite firstn_firstn. replace (Nat.min i (S k)) with i by lia. fold pos.
+      split; [reflexivity|].
+      destruct (wnonterminal_pos min l i ltac:(lia) ltac:(intros j Hj; apply NT; lia)); unfold pos; lia.
+    - rewrite G in E.
+      assert (Er : reqs = wreq_list (length buf) 0 l) by congruence. subst reqs. clear E.
+      rewrite wreq_list_length in Hi.
+      rewrite wreq_list_nth by lia. cbn [Nat.add]. fold pos. split; [reflexivity|].
+      pose proof (wfirst_terminal_none _ _ _ F) as NT. cbn [Nat.add] in NT.
+      destruct (wnonterminal_pos min l i ltac:(lia) ltac:(intros j Hj; apply NT; lia)); unfold pos; lia.
+  Qed.
+
+  (* ------------------------------------------------------------------ M3: cancel *)
+  Definition is_cb (o : robs) : bool := match o with ObsCallback _ => true | _ => false end.
+  Definition is_recv (o : robs) : bool := match o with ObsRecv _ _ => true | _ => false end.
+
+  Lemma rd_life_none ins : rd_life retry None ins = (None, []).
+  Proof. induction ins as [|i r IH]; simpl; auto. rewrite IH. reflexivity. Qed.
+
+  Lemma rd_life_app slot a b :
+    rd_life retry slot (a ++ b) =
+      (fst (rd_life retry (fst (rd_life retry slot a)) b),
+       snd (rd_life retry slot a) ++ snd (rd_life retry (fst (rd_life retry slot a)) b)).
+  Proof.
+    revert slot. induction a as [|i r IH]; intros slot; cbn [app rd_life].
+    - cbn. destruct (rd_life retry slot b); reflexivity.
+    - destruct (rd_life_step retry slot i) as [s1 o1].
+      rewrite IH. destruct (rd_life retry s1 r) as [s2 o2]. cbn [fst snd].
+      destruct (rd_life retry s2 b) as [s3 o3]. cbn [fst snd]. rewrite app_assoc. reflexivity.
+  Qed.
+
+  (* while the slot is still occupied no callback has been made *)
+  Lemma rd_life_armed_no_cb : forall ins slot C',
+    fst (rd_life retry slot ins) = Some C' -> filter is_cb (snd (rd_life retry slot ins)) = [].
+  Proof.
+    induction ins as [|i r IH]; intros slot C' H; cbn [rd_life] in *; [reflexivity|].
+    destruct (rd_life_step retry slot i) as [s1 o1] eqn:S1.
+    destruct (rd_life retry s1 r) as [s2 o2] eqn:S2. cbn [fst snd] in *.
+    rewrite filter_app. specialize (IH s1 C'). rewrite S2 in IH. cbn [fst snd] in IH. rewrite (IH H), app_nil_r.
+    destruct s1 as [C1|]; [|rewrite rd_life_none in S2; inversion S2; subst; discriminate].
+    unfold rd_life_step in S1. destruct slot as [C|]; [|inversion S1].
+    destruct i as [a reg|]; [|inversion S1].
+    destruct (read_cb retry C a reg) as [C2 act]. destruct act; inversion S1; subst; reflexivity.
+  Qed.
+
+  (* at most one callback along any history of answers and cancels *)
+  Theorem rd_life_callback_once_lemma : forall ins slot,
+    length (filter is_cb (snd (rd_life retry slot ins))) <= 1.
+  Proof.
+    induction ins as [|i r IH]; intros slot; cbn [rd_life]; [cbn; lia|].
+    destruct (rd_life_step retry slot i) as [s1 o1] eqn:S1.
+    specialize (IH s1). destruct (rd_life retry s1 r) as [s2 o2] eqn:S2. cbn [fst snd] in *.
+    rewrite filter_app, app_length.
+    unfold rd_life_step in S1. destruct slot as [C|]; [|inversion S1; subst; cbn; lia].
+    destruct i as [a reg|]; [|inversion S1; subst; cbn; lia].
+    destruct (read_cb retry C a reg) as [C2 act].
+    destruct act; inversion S1; subst; cbn [filter is_cb length];
+      try lia; rewrite rd_life_none in S2; inversion S2; subst; cbn; lia.
+  Qed.
+
+  (* C06-M3: after cancel nothing is observed any more (no callback, no recv) and the
+     registration slot is free, whatever the kernel would have answered *)
+  Theorem cancel_silences_lemma : forall slot pre post,
+    rd_life retry slot (pre ++ InCancel :: post) =
+      (None,
+       snd (rd_life retry slot pre) ++
+       match fst (rd_life retry slot pre) with Some _ => [ObsCancelled] | None => [] end).
+  Proof.
+    intros slot pre post. rewrite rd_life_app. cbn [rd_life].
+    destruct (rd_life retry slot pre) as [s o]. cbn [fst snd].
+    destruct s as [C|]; cbn [rd_life_step]; rewrite rd_life_none; cbn [fst snd]; reflexivity.
+  Qed.
+
+  (* ... and a request cancelled while still registered never calls back *)
+  Theorem cancelled_never_calls_back_lemma : forall C pre post C',
+    fst (rd_life retry (Some C) pre) = Some C' ->
+    filter is_cb (snd (rd_life retry (Some C) (pre ++ InCancel :: post))) = [].
+  Proof.
+    intros C pre post C' H. rewrite cancel_silences_lemma. cbn [snd].
+    rewrite filter_app, (rd_life_armed_no_cb pre (Some C) C' H), H. reflexivity.
+  Qed.
+
+  (* the same for writes *)
+  Definition is_wcb (o : wobs) : bool := match o with ObsWCallback _ => true | _ => false end.
+
+  Lemma wr_life_none ins : wr_life retry None ins = Ok (None, []).
+  Proof. induction ins as [|i r IH]; simpl; auto. rewrite IH. reflexivity. Qed.
+
+  Theorem write_cancel_silences_lemma : forall pre slot post s o,
+    wr_life retry slot pre = Ok (s, o) ->
+    wr_life retry slot (pre ++ WInCancel :: post) =
+      Ok (None, o ++ match s with Some _ => [ObsWCancelled] | None => [] end).
+  Proof.
+    induction pre as [|i r IH]; intros slot post s o H; cbn [app wr_life] in *.
+    - inversion H; subst. destruct s as [C|]; cbn [wr_life_step]; rewrite wr_life_none; reflexivity.
+    - destruct (wr_life_step retry slot i) as [[s1 o1]| | |] eqn:S1; try discriminate.
+      destruct (wr_life retry s1 r) as [[s2 o2]| | |] eqn:S2; try discriminate.
+      inversion H; subst. rewrite (IH s1 post s o2 S2). rewrite app_assoc. reflexivity.
+  Qed.
 End Proofs.
